@@ -4,11 +4,13 @@ import (
 	"context"
 	"fmt"
 	"os"
+	"path/filepath"
 	"strings"
 	"syscall"
 	"time"
 
 	"github.com/criyle/go-sandbox/container"
+	"github.com/criyle/go-sandbox/pkg/mount"
 	"github.com/criyle/go-sandbox/pkg/rlimit"
 	"github.com/criyle/go-sandbox/runner"
 	"golang.org/x/sys/unix"
@@ -60,6 +62,7 @@ var c10alphabet = []c10op{
 	{"symlink-ok", rpcmodel.Op{Kind: rpcmodel.CSymlink, Batch: true}, nil},
 	{"symlink-error", rpcmodel.Op{Kind: rpcmodel.CSymlink, Batch: true}, nil},
 	{"reset", rpcmodel.Op{Kind: rpcmodel.CReset}, nil},
+	{"reset-error", rpcmodel.Op{Kind: rpcmodel.CReset, ReplyErr: true}, nil},
 	{"execve-not-found", rpcmodel.Op{Kind: rpcmodel.CExecve, LookFail: true}, nil},
 	{"execve-empty-args", rpcmodel.Op{Kind: rpcmodel.CExecve, LookFail: true}, nil},
 	{"execve-fails-before-sync", rpcmodel.Op{Kind: rpcmodel.CExecve, StartFail: true}, nil},
@@ -74,6 +77,9 @@ var c10alphabet = []c10op{
 type c10env struct {
 	c   container.Environment
 	ctl *gate.Ctl
+	// host directory bound read-only at /w/keep, inside the writable tmpfs: while it holds a file, Reset cannot clean /w
+	// (EROFS) and must answer with an error — a failure caused by the request's environment, not by the transport
+	keep string
 }
 
 func c10build() (*c10env, error) {
@@ -82,7 +88,12 @@ func c10build() (*c10env, error) {
 		return nil, err
 	}
 	container.VerifHook = ctl.HostHook
-	c, err := newContainer(func(b *container.Builder) { b.Stderr = ctl.Peer })
+	keep := tmpDir("c10keep")
+	os.Chmod(keep, 0755)
+	c, err := newContainer(func(b *container.Builder) {
+		b.Stderr = ctl.Peer
+		b.Mounts = append(b.Mounts, mount.Mount{Source: keep, Target: "w/keep", Flags: syscall.MS_BIND | syscall.MS_RDONLY | syscall.MS_NOSUID})
+	})
 	if err != nil {
 		container.VerifHook = nil
 		ctl.Close()
@@ -101,7 +112,7 @@ func c10build() (*c10env, error) {
 		}
 		return pre == post && pre >= 2
 	})
-	return &c10env{c: c, ctl: ctl}, nil
+	return &c10env{c: c, ctl: ctl, keep: keep}, nil
 }
 
 func (e *c10env) close() {
@@ -113,6 +124,7 @@ func (e *c10env) close() {
 	}
 	container.VerifHook = nil
 	e.ctl.Close()
+	os.RemoveAll(e.keep)
 }
 
 // perform runs one operation on the implementation; returns the model's RETURN class and a description of what the API said,
@@ -194,6 +206,17 @@ func (e *c10env) perform(k int, op c10op, sched string) (class int, said string,
 			complaint = "reset failed: " + said
 		}
 		return 0, said, complaint, returned
+	case "reset-error":
+		var err error
+		blocker := filepath.Join(e.keep, "blocker-"+uniq)
+		os.WriteFile(blocker, []byte("x"), 0644)
+		returned = call(func() { err = c.Reset() })
+		os.Remove(blocker)
+		said = fmt.Sprint(err)
+		if err == nil {
+			complaint = "reset with an undeletable file below /w must fail: " + said
+		}
+		return 1, said, complaint, returned
 	}
 	// execve family
 	code := 20 + k
@@ -331,14 +354,14 @@ func init() {
 			var scheds []string
 			// positions before the last one: quick and the 3-op scripts use the execve family only (every other operation is a
 			// single request/reply that provably returns both sides to the idle state, see the model's quiescence check);
-			// last position: quick pairs and all triples use five representatives
+			// last position: quick pairs and all triples use six representatives
 			var execFamily, reps []int
 			for i, o := range c10alphabet {
 				if o.model.Kind == rpcmodel.CExecve {
 					execFamily = append(execFamily, i)
 				}
 				switch o.name {
-				case "open-ok", "reset", "execve-callback-fails", "execve-runs", "execve[sync-after]-runs":
+				case "open-ok", "reset", "reset-error", "execve-callback-fails", "execve-runs", "execve[sync-after]-runs":
 					reps = append(reps, i)
 				}
 			}
